@@ -34,5 +34,7 @@ SomeOther == {"udp", "tcpx"}
 \* only the servers that can ever be live send TCP (exports: keeps the alphabet small)
 ServerStepR == \E s \in {x \in SrvSet : Idents[x] # {}}, f \in Flows :
                  ServerFast(s, f) \/ ServerUnknown(s, f) \/ ServerKnown(s, f) \/ ServerCrash(s, f)
+\* liveness of the servers and the forward path only (no TCP from servers)
+NextL == Start \/ TimeStep \/ ArpStep \/ ClientStep
 NextR == Start \/ TimeStep \/ ArpStep \/ ClientStep \/ ServerStepR \/ OtherStep
 ====
